@@ -58,13 +58,15 @@ class Taint:
 
 
 class _St:
-    """tainted names, guarded names (length/truthiness known on this path), dict-like tainted names"""
+    """tainted names, guarded names (non-empty / checked on this path), dict-like tainted names,
+    ml: name -> minimum length known on this path"""
 
-    def __init__(self, tainted, guarded, dicts):
+    def __init__(self, tainted, guarded, dicts, ml=None):
         self.t, self.g, self.d = tainted, guarded, dicts
+        self.ml = ml or {}
 
     def copy(self):
-        return _St(set(self.t), set(self.g), set(self.d))
+        return _St(set(self.t), set(self.g), set(self.d), dict(self.ml))
 
     @staticmethod
     def join(states):
@@ -76,7 +78,11 @@ class _St:
         g = set(states[0].g)
         for s in states[1:]:
             g &= s.g
-        return _St(t, g, d)
+        ml = {}
+        for k in states[0].ml:
+            if all(k in s.ml for s in states):
+                ml[k] = min(s.ml[k] for s in states)
+        return _St(t, g, d, ml)
 
 
 class _F:
@@ -165,9 +171,14 @@ class _F:
                 nm = _truthy_name(v) if isinstance(e.op, ast.And) else _falsy_name(v)
                 if nm:
                     g.add(nm)
-                ln = _len_guard_name(v)
-                if ln and isinstance(e.op, ast.And):
-                    g.add(ln)
+                ln = _len_bound(v)
+                if ln and isinstance(e.op, ast.And) and ln[1] is not None:
+                    g.add((ln[0], ln[1]))
+                elif ln and isinstance(e.op, ast.And):
+                    g.add(ln[0])
+                ln2 = _len_bound(v, negate=True)
+                if ln2 and isinstance(e.op, ast.Or) and ln2[1] is not None:
+                    g.add((ln2[0], ln2[1]))
             return
         if isinstance(e, ast.IfExp):
             self.scan(e.test, st, guarded_extra)
@@ -226,7 +237,24 @@ class _F:
                         and iv in SAFE_INDEX_METHODS[base.func.attr]:
                     return
                 nm = base.id if isinstance(base, ast.Name) else None
-                if nm and (nm in st.g or nm in guarded_extra):
+                need = iv + 1 if iv >= 0 else -iv
+                known = None
+                if nm:
+                    known = st.ml.get(nm)
+                    for ge in guarded_extra:
+                        if isinstance(ge, tuple) and ge[0] == nm:
+                            known = max(known or 0, ge[1])
+                if known is not None:
+                    if known >= need:
+                        return
+                    if not self.caught(CATCH_INDEX):
+                        self.report("short-guard-index", e, f"`{ast.unparse(e)}`: the preceding length guard only guarantees {known} element(s) of "
+                                                            f"`{nm}`, index {iv} needs {need} -> IndexError at the boundary length")
+                    return
+                if nm and (nm in st.g or nm in guarded_extra) and need <= 1:
+                    return
+                if nm and (nm in st.g or nm in guarded_extra) and nm not in st.ml:
+                    # guarded by a non-numeric check (regex match, membership ...): accept
                     return
                 if nm and ("split:" + nm) in st.g and iv in (0, -1):
                     return
@@ -277,6 +305,7 @@ class _F:
                     st.t.discard(n.id)
                 st.g.discard(n.id)
                 st.d.discard(n.id)
+                st.ml.pop(n.id, None)
                 st.g.discard("split:" + n.id)
                 if is_dict:
                     st.d.add(n.id)
@@ -379,6 +408,7 @@ class _F:
                     and isinstance(n.func.value, ast.Name):
                 st.g.discard("split:" + n.func.value.id)
                 st.g.discard(n.func.value.id)
+                st.ml.pop(n.func.value.id, None)
 
     def _refine(self, test, a, b):
         """a: state when test true, b: when false"""
@@ -396,11 +426,18 @@ class _F:
         if isinstance(test, ast.Name):
             a.g.add(test.id)
             return
-        nm = _len_guard_name(test)
-        if nm:
-            # any comparison of len(x) with a constant establishes a length fact on both branches
-            a.g.add(nm)
-            b.g.add(nm)
+        lb = _len_bound(test)
+        if lb:
+            nm, k_true = lb
+            k_false = _len_bound(test, negate=True)[1]
+            for stt, k in ((a, k_true), (b, k_false)):
+                if k is not None:
+                    stt.ml[nm] = max(stt.ml.get(nm, 0), k)
+                    if k >= 1:
+                        stt.g.add(nm)
+            if k_true is None and k_false is None:
+                a.g.add(nm)
+                b.g.add(nm)
             return
         if isinstance(test, ast.Compare) and len(test.ops) == 1 and isinstance(test.ops[0], (ast.In, ast.NotIn)):
             k, d = test.left, test.comparators[0]
@@ -417,6 +454,9 @@ class _F:
                 and isinstance(test.func.value, ast.Name):
             # x.startswith(<non-empty const>) true => x non-empty
             a.g.add(test.func.value.id)
+            if test.args and isinstance(test.args[0], ast.Constant) and isinstance(test.args[0].value, (str, bytes)):
+                nm = test.func.value.id
+                a.ml[nm] = max(a.ml.get(nm, 0), len(test.args[0].value))
 
 
 def _truthy_name(e):
@@ -438,6 +478,36 @@ def _len_guard_name(e):
                     and isinstance(side.args[0], ast.Name):
                 return side.args[0].id
     return None
+
+
+def _len_bound(e, negate=False):
+    """for `len(x) <op> k` (k int constant; also reversed) -> (x, minimum length implied when the test is true (or false if negate)) """
+    if not (isinstance(e, ast.Compare) and len(e.ops) == 1):
+        return None
+    l, r, op = e.left, e.comparators[0], e.ops[0]
+    def is_len(n):
+        return isinstance(n, ast.Call) and isinstance(n.func, ast.Name) and n.func.id == "len" and n.args and isinstance(n.args[0], ast.Name)
+    def const(n):
+        return n.value if isinstance(n, ast.Constant) and isinstance(n.value, int) and not isinstance(n.value, bool) else None
+    flip = {ast.Lt: ast.Gt, ast.Gt: ast.Lt, ast.LtE: ast.GtE, ast.GtE: ast.LtE, ast.Eq: ast.Eq, ast.NotEq: ast.NotEq}
+    if is_len(l):
+        name, k, opt = l.args[0].id, const(r), type(op)
+    elif is_len(r) and type(op) in flip:
+        name, k, opt = r.args[0].id, const(l), flip[type(op)]
+    else:
+        return None
+    if k is None:
+        return (name, None)
+    neg = {ast.Lt: ast.GtE, ast.GtE: ast.Lt, ast.Gt: ast.LtE, ast.LtE: ast.Gt, ast.Eq: ast.NotEq, ast.NotEq: ast.Eq}
+    if negate:
+        opt = neg.get(opt, opt)
+    if opt is ast.Gt:
+        return (name, k + 1)
+    if opt is ast.GtE:
+        return (name, k)
+    if opt is ast.Eq:
+        return (name, k)
+    return (name, None)
 
 
 def _mentions_tainted(t, st):
